@@ -12,12 +12,16 @@ CLAIMS = {
          "Lean 4 proof + three-way differential correspondence", "DESIGN §6 C10"),
  "C20": ("mgr", "Lean 4 theorems over the EpochSnapshotManager model for every retention value (0 included), both backends and every sequence of commits, MIP-03 comparisons, rollbacks, restarts with any TTL: every group's rollback queue holds at most `retention` entries after every step (induction over the op list), nothing older than the TTL is stored after a restart, a rollback leaves no queue entry at or after the rolled-back epoch, a commit is never better than itself and hydrated entries are never compared. Correspondence against the real manager over both storage backends (hydration order, retention trimming, release on rollback) and an oracle with a spec-level log (stored count <= retention, kept = most recent commits, TTL).",
          "Lean 4 proof + model/implementation correspondence", "DESIGN §6 C20"),
+ "C14": ("leak", "PARTIAL. Lean 4 theorems over a rendering semantics (values are arbitrarily nested texts built at extracted sites): a record whose argument classes are all clean contains no secret atom (render_clean, all tables/sites/values); every error-enum variant, every non-test construction of a free-text error payload, every manual Debug/Display impl and every tracing call site of the five crates - re-extracted from the current source on every run into GeneratedLeak.lean - has only clean argument classes (decide over the finite regenerated tables); hence no modelled execution emits a protected value. The tie to the code is the translator (classification rules trusted, conservative: no rule => unknown => sensitive) plus a run-time correspondence: every captured mdk_* record must come from an extracted site and a canary may occur only where the Lean table says sensitive; an independent canary oracle scans every captured record and every rendered Err/result value.",
+         "Lean 4 proof over regenerated tables + run-time canary capture", "DESIGN §6 C14"),
 }
+NOTES = {"C14": "partial: call sites that did not fire in a run are covered by the static theorem only; the classification of expressions and 'third-party Display/Debug is clean' are trusted and listed in evidence; panic messages are not captured"}
 PENDING = "not yet claimed: machinery under construction in this session (planned per DESIGN §12)"
 def main():
     engines = [{"name": "lean-model", "path": "lean/", "serves_properties": sorted(CLAIMS), "kind_free_text": "Lean 4 executable model, helper lemmas, property theorems (MdkVerif.Props.*), compiled driver mdkdrv"},
                {"name": "store", "path": "harness/src/store.rs + vlib/storeeng.py", "serves_properties": [p for p, v in CLAIMS.items() if v[0] == "store"], "kind_free_text": "correspondence + oracle engine over the storage traits on both backends"},
                {"name": "mgr", "path": "harness/src/mgr.rs + vlib/mgreng.py", "serves_properties": [p for p, v in CLAIMS.items() if v[0] == "mgr"], "kind_free_text": "drives the real EpochSnapshotManager over both backends"},
+               {"name": "leak", "path": "harness/src/leak.rs + vlib/leakeng.py + tools/gen_leak.py", "serves_properties": [p for p, v in CLAIMS.items() if v[0] == "leak"], "kind_free_text": "tracing capture + Display/Debug rendering of returned values under canary scenarios, mapped onto regenerated Lean tables"},
                {"name": "translator", "path": "tools/gen_model.py", "serves_properties": sorted(CLAIMS), "kind_free_text": "regenerates lean/MdkVerif/Generated.lean from /repo on every run"}]
     m = {"version": 1, "setup_cmd": "./setup.sh",
          "hooks": {"guard": "cargo feature verif-hooks (mdk-core, mdk-memory-storage, mdk-sqlite-storage)",
@@ -32,7 +36,7 @@ def main():
         m["checks"].append({"property_id": pid, "quick_cmd": f"./check {pid} --tier quick", "thorough_cmd": f"./check {pid} --tier thorough",
                             "evidence_file": f"evidence/{pid}.json", "replay_cmd_template": f"./check {pid} --replay {{path}}",
                             "engine": f"lean-model+{eng}", "level_claimed": {"category": "proof", "text": text, "design_ref": ref},
-                            "level_note": NOTE, "technique": tech})
+                            "level_note": NOTES.get(pid, NOTE), "technique": tech})
     for i in range(1, 21):
         pid = f"C{i:02d}"
         if pid not in CLAIMS:
